@@ -61,3 +61,14 @@ package executor
 //@   requires this != nil && this.logger != nil && context != nil
 //@   requires [ctx!init] has(context, "situation") && istype(context["situation"], string) && has(context, "refund") && istype(context["refund"], RefundMap) && unbox(context["refund"], RefundMap) != nil
 //@   ensures [scheduled] result0 && header != nil && transaction != nil && transaction.Sign != nil ==> exists h uint64 :: has(unbox(context["refund"], RefundMap), h) && schedHas(unbox(context["refund"], RefundMap)[h].List, hexBytes(transaction.Source))
+
+// ---------------------------------------------------------------------------------------------
+// Operator asset transfer (C01). The request text is decoded into a Go map and handed to ChangeAssets; anything
+// this function does while ranging over that map must not depend on the visiting order ("option maporder": every
+// map-range loop in the body gets the order-independence obligation of govc/commute.go on all it writes).
+//@ func operatorExecutor.transfer
+//@   property C01
+//@   option maporder
+//@   requires this != nil && typeid(this.logger) != 0 && accountdb != nil && service.logger != nil
+//@   requires [wf] forall a common.Address :: balOf(a) >= 0
+//@   modifies ghost(bal), ghost(supply)
